@@ -25,7 +25,7 @@ def gen_lists():
 def gen(ctx, n):
     r = ctx.rng
     cases = []
-    models = ['mlp', 'conv', 'emb', 'frozen', 'custom', 'norm']
+    models = ['mlp', 'conv', 'emb', 'frozen', 'custom', 'norm', 'mixed']
     for model in models:
         for mode in ['hooks', 'functorch', 'ew', 'ghost']:
             if model == 'custom' and mode == 'ew':
